@@ -112,7 +112,8 @@ func (t *poll) Run(ctx execution.ExecutionContext, produce execution.ProduceFn, 
 			for i := range lastValues {
 				if err := produce(
 					execution.ProduceFromExecutionContext(ctx),
-					execution.NewRecord(lastValues[i], true, lastNow),
+					// The retraction happens now: lastNow is already covered by the watermark sent after the last round.
+					execution.NewRecord(lastValues[i], true, now),
 				); err != nil {
 					return fmt.Errorf("couldn't produce record: %w", err)
 				}
